@@ -92,6 +92,12 @@ func init() {
 				}
 				s = append(s, seed{name: "ref/ciphertext-" + strconv.Itoa(n), in: ct})
 			}
+			// messages with a correct integrity tag whose protected part is shorter than a confounder (rc4-hmac, SHA-2 etypes)
+			for _, n := range []int{0, 1, 7, 8, 9, 15, 16, 17} {
+				if ct, err := ref.SealShort(et, wKey("crypto", et).Value, 2, det("short", n)); err == nil {
+					s = append(s, seed{name: "ref/sealed-short-" + strconv.Itoa(n), in: ct})
+				}
+			}
 			return s
 		}), muts: []string{"none", "prefix", "subst", "bitflip", "extend"}})
 
